@@ -18,6 +18,8 @@
 #include <cstdlib>
 #include <cstring>
 #include <functional>
+#include <limits>
+#include <type_traits>
 #include <string>
 #include <vector>
 #include <unistd.h>
@@ -129,12 +131,12 @@ enum
 {
     S_F2H, S_F2H_ASSIGN, S_H2F, S_H2F_CAST, S_H2D, S_H2D_CAST, S_SQRT, S_CLASS, S_NEG, S_FABS, S_HASH,
     S_ADD, S_SUB, S_MUL, S_DIV, S_CMP, S_COPYSIGN, S_FMA, S_FMAD,
-    S_NF_D_CAST, S_NF_D_CAST_RN, S_NF_D_CTOR, S_NF_D_ASSIGN, S_NF_F_CTOR, S_NF_F_ASSIGN, S_NF_F_CAST, S_NSTREAM
+    S_NF_D_CAST, S_NF_D_CAST_RN, S_NF_D_CTOR, S_NF_D_ASSIGN, S_NF_F_CTOR, S_NF_F_ASSIGN, S_NF_F_CAST, S_MIXED, S_NSTREAM
 };
 static const char* const stream_name[S_NSTREAM] = {
     "float2half", "float2half_assign", "half2float", "half2float_cast", "half2double", "half2double_cast", "sqrt", "classify", "neg", "fabs", "hash",
     "add", "sub", "mul", "div", "cmp", "copysign", "fma", "fma_derived",
-    "double2half_cast", "double2half_cast_rn", "double2half_ctor", "double2half_assign", "float2half_nan_ctor", "float2half_nan_assign", "float2half_nan_cast"};
+    "double2half_cast", "double2half_cast_rn", "double2half_ctor", "double2half_assign", "float2half_nan_ctor", "float2half_nan_assign", "float2half_nan_cast", "mixed"};
 
 struct stream_t
 {
@@ -156,7 +158,7 @@ static __attribute__((noinline, cold)) void emit_slow(int sid, uint64_t canon)
     if (g_sub != g_dump_sub) return;
     if (g_dump_file) { std::fwrite(&canon, dump_width(sid), 1, g_dump_file); }   // little endian: the low bytes
     if (g_nth >= 0 && (long long)g_st[sid].n == g_nth)
-        std::printf("@@{\"t\":\"nth\",\"stream\":\"%s\",\"n\":%d,\"a\":\"0x%x\",\"b\":\"0x%x\",\"c\":\"0x%x\",\"a64\":\"0x%016llx\"}\n", stream_name[sid], (int)g_nargs, (unsigned)g_a, (unsigned)g_b, (unsigned)g_c, (unsigned long long)g_a64);
+        std::printf("@@{\"t\":\"nth\",\"stream\":\"%s\",\"n\":%d,\"a\":\"0x%x\",\"b\":\"0x%x\",\"c\":\"0x%x\",\"a64\":\"0x%016llx\",\"fn\":\"%s\"}\n", stream_name[sid], (int)g_nargs, (unsigned)g_a, (unsigned)g_b, (unsigned)g_c, (unsigned long long)g_a64, (const char*)g_fn);
 }
 // canon: value with NaN results canonicalised (verdict); raw: the exact bits (information only)
 static inline void emit(int sid, uint64_t canon, uint64_t raw)
@@ -835,6 +837,183 @@ static void mode_fmad(char set, int shard, int nshard)
     flush_streams();
 }
 
+// ------------------------------------------------------------------ mixed operands: half op T and T op half (operator templates), compound assignment
+// For every T of the list, every half a (all 65536) and every t of T's alphabet (values exactly representable in binary16, so
+// static_cast<half>(t) is exact and equals the half ht the alphabet was built from):
+//   a + t, t + a, a - t, t - a, a * t, t * a, a / t, t / a        -> the reference operation on (a, ht) resp. (ht, a), bit for bit
+//   a += t, a -= t, a *= t, a /= t                                 -> the same
+//   a == t, t == a, != < > <= >= in both orders                    -> the float comparison of the converted values
+#define MIXED_TYPES(X) \
+    X(float, "float") X(double, "double") X(long double, "long_double") X(int, "int") X(long, "long") X(long long, "long_long") \
+    X(unsigned, "unsigned") X(unsigned long, "unsigned_long") X(short, "short") X(unsigned short, "unsigned_short") \
+    X(signed char, "signed_char") X(unsigned char, "unsigned_char") X(char, "char") X(bool, "bool") X(H, "half")
+static const int N_MIXED_TYPES = 15;
+
+template <class T> struct mixed_conv
+{
+    static T from(uint16_t ht) { return static_cast<T>(href::to_double(ht)); }
+    static bool usable(uint16_t ht)
+    {
+        if (href::is_nan16(ht)) return std::is_floating_point<T>::value;
+        const double v = href::to_double(ht);
+        if (!std::is_floating_point<T>::value)
+        {
+            if (href::is_inf16(ht) || v != std::floor(v)) return false;
+            if (v < double(std::numeric_limits<T>::lowest()) || v > double(std::numeric_limits<T>::max())) return false;
+        }
+        const T t = static_cast<T>(v);
+        return href::from_double(double(t)) == ht && (std::is_floating_point<T>::value || ht != 0x8000);   // exact round trip (no -0 for integers)
+    }
+};
+template <> struct mixed_conv<H>
+{
+    static H from(uint16_t ht) { return mk(ht); }
+    static bool usable(uint16_t) { return true; }
+};
+
+static std::vector<uint16_t> mixed_candidates()
+{
+    std::vector<uint16_t> v = {0x0000, 0x8000, 0x0001, 0x8001, 0x03FF, 0x83FF, 0x0400, 0x8400, 0x3800, 0xB800, 0x3C00, 0xBC00, 0x3C01, 0xBC01, 0x4000, 0xC000,
+                               0x4200, 0xC200, 0x3555, 0xB555, 0x7BFF, 0xFBFF, 0x7C00, 0xFC00, 0x7E00, 0xFE00, 0x7D00};
+    const long long ints[] = {3, 7, 127, 128, 255, 256, 1024, 2047, 2048, 32768, 65504};
+    for (long long i : ints)
+        for (int sgn = 0; sgn < 2; ++sgn)
+        {
+            const uint16_t h = href::from_int(sgn ? -i : i);
+            bool dup = false;
+            for (uint16_t x : v) dup |= (x == h);
+            if (!dup && href::to_double(h) == double(sgn ? -i : i)) v.push_back(h);
+        }
+    return v;
+}
+
+enum { MX_ADD_HT, MX_ADD_TH, MX_SUB_HT, MX_SUB_TH, MX_MUL_HT, MX_MUL_TH, MX_DIV_HT, MX_DIV_TH, MX_ADDA, MX_SUBA, MX_MULA, MX_DIVA,
+       MX_CMP_HT, MX_CMP_TH = MX_CMP_HT + 6, MX_NFN = MX_CMP_TH + 6 };
+struct mixed_names
+{
+    std::string n[MX_NFN];
+    explicit mixed_names(const char* T)
+    {
+        const std::string t = T;
+        const char* ar[4] = {"add", "sub", "mul", "div"};
+        for (int i = 0; i < 4; ++i)
+        {
+            n[MX_ADD_HT + 2 * i] = std::string(ar[i]) + "(half," + t + ")";
+            n[MX_ADD_TH + 2 * i] = std::string(ar[i]) + "(" + t + ",half)";
+            n[MX_ADDA + i] = std::string(ar[i]) + "_assign(half," + t + ")";
+        }
+        for (int i = 0; i < 6; ++i)
+        {
+            n[MX_CMP_HT + i] = std::string(cmpname[i]) + "(half," + t + ")";
+            n[MX_CMP_TH + i] = std::string(cmpname[i]) + "(" + t + ",half)";
+        }
+    }
+};
+static __attribute__((noinline, cold)) void fail_cmp_mixed(const char* fn, uint16_t first, uint16_t second, bool expect, bool got)
+{
+    if (throttled(fn, unsigned(DEC[first].cls) | unsigned(DEC[first].neg) << 3 | unsigned(DEC[second].cls) << 4 | unsigned(DEC[second].neg) << 7, int(got))) return;
+    vf::violation(std::string("C08/") + fn + g_sfx + "/" + bclass(first) + "," + bclass(second) + "/wrong-result",
+                  std::string("[") + BLD() + "] " + fn + " on operands " + h2s(first) + ", " + h2s(second) + " (the non-half operand holds exactly that value) returned " + (got ? "true" : "false") +
+                      ", the float comparison of the converted operands says " + (expect ? "true" : "false"),
+                  RP(fn, {hx(first, 4), hx(second, 4)}));
+}
+
+// only: nullptr = everything, else the one function name to evaluate (replay)
+template <class T>
+static void one_mixed(const mixed_names& N, uint16_t a, uint16_t ht, const char* only)
+{
+    const H x = mk(a);
+    const T t = mixed_conv<T>::from(ht);
+    const dec &da = DEC[a], &dt = DEC[ht];
+    auto want = [&](int f) { return !only || N.n[f] == only; };
+    auto judge = [&](int f, bool t_first, uint16_t e, const rinfo& ri, uint16_t g) {
+        ++g_eval;
+        account(ri, e);
+        if (__builtin_expect(!same_half(e, g), 0)) { if (t_first) fail_half(N.n[f].c_str(), ops_t(ht, a), e, g, ri); else fail_half(N.n[f].c_str(), ops_t(a, ht), e, g, ri); }
+        emit1(S_MIXED, href::canon16(g));
+        if (g_verbose) std::printf("@@{\"t\":\"res\",\"fn\":\"%s\",\"v\":\"%04x\",\"expect\":\"%04x\"}\n", N.n[f].c_str(), href::canon16(g), e);
+    };
+#define MX_ARITH(F_HT, F_TH, F_A, REF, OP)                                                                                      \
+    if (want(F_HT)) { g_a = a; g_b = ht; CUR(N.n[F_HT].c_str()); rinfo ri; const uint16_t e = href::REF(da, dt, &ri); judge(F_HT, false, e, ri, bits(x OP t)); } \
+    if (want(F_TH)) { g_a = ht; g_b = a; CUR(N.n[F_TH].c_str()); rinfo ri; const uint16_t e = href::REF(dt, da, &ri); judge(F_TH, true, e, ri, bits(t OP x)); }  \
+    if (want(F_A)) { g_a = a; g_b = ht; CUR(N.n[F_A].c_str()); rinfo ri; const uint16_t e = href::REF(da, dt, &ri); H y = x; y OP## = t; judge(F_A, false, e, ri, bits(y)); }
+    MX_ARITH(MX_ADD_HT, MX_ADD_TH, MX_ADDA, add, +)
+    MX_ARITH(MX_SUB_HT, MX_SUB_TH, MX_SUBA, sub, -)
+    MX_ARITH(MX_MUL_HT, MX_MUL_TH, MX_MULA, mul, *)
+    MX_ARITH(MX_DIV_HT, MX_DIV_TH, MX_DIVA, div, /)
+#undef MX_ARITH
+    const float fa = FLT[a], ft = FLT[ht];
+    const bool e_ht[6] = {fa == ft, fa != ft, fa < ft, fa > ft, fa <= ft, fa >= ft};
+    const bool e_th[6] = {ft == fa, ft != fa, ft < fa, ft > fa, ft <= fa, ft >= fa};
+    bool any = !only;
+    for (int i = 0; i < 6 && !any; ++i) any = want(MX_CMP_HT + i) || want(MX_CMP_TH + i);
+    if (any)
+    {
+        g_a = a; g_b = ht;
+        CUR(N.n[MX_CMP_HT].c_str());
+        const bool g_ht[6] = {x == t, x != t, x < t, x > t, x <= t, x >= t};
+        g_a = ht; g_b = a;
+        CUR(N.n[MX_CMP_TH].c_str());
+        const bool g_th[6] = {t == x, t != x, t < x, t > x, t <= x, t >= x};
+        unsigned packed = 0;
+        for (int i = 0; i < 6; ++i)
+        {
+            packed |= unsigned(g_ht[i]) << i | unsigned(g_th[i]) << (6 + i);
+            if (want(MX_CMP_HT + i))
+            {
+                ++g_eval;
+                if (__builtin_expect(g_ht[i] != e_ht[i], 0)) fail_cmp_mixed(N.n[MX_CMP_HT + i].c_str(), a, ht, e_ht[i], g_ht[i]);
+                if (g_verbose) std::printf("@@{\"t\":\"res\",\"fn\":\"%s\",\"v\":\"%d\"}\n", N.n[MX_CMP_HT + i].c_str(), int(g_ht[i]));
+            }
+            if (want(MX_CMP_TH + i))
+            {
+                ++g_eval;
+                if (__builtin_expect(g_th[i] != e_th[i], 0)) fail_cmp_mixed(N.n[MX_CMP_TH + i].c_str(), ht, a, e_th[i], g_th[i]);
+                if (g_verbose) std::printf("@@{\"t\":\"res\",\"fn\":\"%s\",\"v\":\"%d\"}\n", N.n[MX_CMP_TH + i].c_str(), int(g_th[i]));
+            }
+        }
+        if (!only) emit1(S_MIXED, packed);
+    }
+}
+template <class T>
+static void mixed_type_run(const char* tn, const std::vector<uint16_t>& halves)
+{
+    static const mixed_names N(tn);   // static: the names are referenced by g_fn / the throttle table for the whole run
+    g_nargs = 2;
+    std::vector<uint16_t> alpha;
+    for (uint16_t h : mixed_candidates()) if (mixed_conv<T>::usable(h)) alpha.push_back(h);
+    for (uint16_t ht : alpha)
+        for (uint16_t a : halves) one_mixed<T>(N, a, ht, nullptr);
+    vf::stat(std::string("mixed_operand_pairs_" C08_BUILD) + g_sfx, (long long)alpha.size() * (long long)halves.size());
+    vf::note(std::string("mixed operands: T = ") + tn + " with " + vf::str(alpha.size()) + " values exactly representable in binary16");
+}
+static void mode_mixed(int shard, int nshard, const std::vector<uint16_t>& halves)
+{
+    int idx = 0;
+#define X(T, NAME) if (idx++ % nshard == shard) mixed_type_run<T>(NAME, halves);
+    MIXED_TYPES(X)
+#undef X
+    flush_streams();
+    if (shard == 0)
+        std::printf("@@{\"t\":\"xs\",\"k\":\"mixed/0\",\"v\":\"2.0f - half(0x4000) == %s ; half(0x7e00) <= 1.0 == %d ; 3 * half(0x3555) == %s\"}\n", h2s(bits(2.0f - mk(0x4000))).c_str(), int(mk(0x7E00) <= 1.0),
+                    h2s(bits(3 * mk(0x3555))).c_str());
+}
+// replay: fn = "sub(float,half)" etc.; operands in call order
+static bool run_one_mixed(const std::string& fn, uint32_t first, uint32_t second)
+{
+    const size_t lp = fn.find('('), cm = fn.find(','), rp = fn.find(')');
+    if (lp == std::string::npos || cm == std::string::npos || rp == std::string::npos) return false;
+    const std::string p1 = fn.substr(lp + 1, cm - lp - 1), p2 = fn.substr(cm + 1, rp - cm - 1);
+    const bool t_first = (p2 == "half" && p1 != "half");
+    const std::string tn = t_first ? p1 : p2;
+    const uint16_t a = uint16_t(t_first ? second : first), ht = uint16_t(t_first ? first : second);
+    bool done = false;
+#define X(T, NAME) if (!done && tn == NAME) { static const mixed_names N(NAME); g_nargs = 2; one_mixed<T>(N, a, ht, fn.c_str()); done = true; }
+    MIXED_TYPES(X)
+#undef X
+    return done;
+}
+
 // ------------------------------------------------------------------ NaN / infinity boundary family (double -> half and float -> half)
 // "NaN-to-NaN" and "infinity stays infinity" for every entry point that takes a double or a float. Inputs: both signs, exponent
 // field all ones, a structured set of mantissa patterns. Oracle: mantissa == 0 -> exactly +-inf; otherwise a half NaN
@@ -1098,7 +1277,8 @@ static int run_one(int argc, char** argv, int i)
     for (int k = 0; k < nops && k < 3; ++k) v[k] = parse_u(argv[i + 1 + k]);
     g_a = v[0]; g_b = v[1]; g_c = v[2];
     g_nargs = nops;
-    if (fn.compare(0, 11, "double2half") == 0) one_nan_double(std::strtoull(argv[i + 1], nullptr, 0), fn.c_str());
+    if (fn.find('(') != std::string::npos) { if (!run_one_mixed(fn, v[0], v[1])) return 3; }
+    else if (fn.compare(0, 11, "double2half") == 0) one_nan_double(std::strtoull(argv[i + 1], nullptr, 0), fn.c_str());
     else if (fn.compare(0, 14, "float2half_nan") == 0) one_nan_float(v[0], fn.c_str());
     else if (fn == "float2half" || fn == "float2half_assign")
     {
@@ -1202,6 +1382,7 @@ int main(int argc, char** argv)
     else if (mode == "fmad") mode_fmad(alpha[0], shard, nshard);
     else if ((mode == "info" || mode == "selftest") && g_fenv_mode >= 0 && g_fenv_mode != FE_TONEAREST) { std::fprintf(stderr, "double based modes run under FE_TONEAREST only\n"); return 3; }
     else if (mode == "nanfam") mode_nanfam();
+    else if (mode == "mixed") mode_mixed(shard, nshard, set == "s" ? A512 : A_all);
     else if (mode == "info") mode_info();
     else if (mode == "selftest") mode_selftest();
     else { std::fprintf(stderr, "unknown mode\n"); return 3; }
